@@ -1391,6 +1391,68 @@ def suite_server(ctx, exe, n):
     ctx.close_suite("server_read", ran)
 
 
+def suite_closing_gate(ctx, exe):
+    """The translated closing-connection gate of RequestHandler.data_received (dg_srv_closing_feeds) against the
+    implementation, over its whole truth table: does a call reach HttpParser.feed_data?"""
+    from unittest import mock
+    from aiohttp import web
+    from harness.common.transport import start_server
+    loop = _loop()
+    rows = []
+    try:
+        async def go():
+            async def handler(request):
+                return web.Response()
+            app = web.Application()
+            app.router.add_get("/", handler)
+            runner, connect = await start_server(app, loop)
+            for bits in range(128):
+                b = [(bits >> (6 - i)) & 1 for i in range(7)]
+                nonempty, has_req, at_eof, has_tr, has_parser, custom_pp, upgraded = b
+                proto, tr = connect()
+                for flag in ("_close", "_force_close"):
+                    p = mock.Mock()
+                    p.feed_data.return_value = ((), False, b"")
+                    req = mock.Mock()
+                    req.content.is_eof.return_value = bool(at_eof)
+                    saved = (proto._current_request, proto.transport, proto._parser, proto._payload_parser, proto._upgraded)
+                    proto._current_request = req if has_req else None
+                    proto.transport = tr if has_tr else None
+                    proto._parser = p if has_parser else None
+                    proto._payload_parser = mock.Mock() if custom_pp else None
+                    proto._upgraded = bool(upgraded)
+                    setattr(proto, flag, True)
+                    try:
+                        proto.data_received(b"x" if nonempty else b"")
+                        fed = p.feed_data.called
+                    except Exception as e:  # noqa
+                        fed = "raised " + type(e).__name__
+                    setattr(proto, flag, False)
+                    proto._current_request, proto.transport, proto._parser, proto._payload_parser, proto._upgraded = saved
+                    rows.append(("".join(map(str, b)), flag, fed))
+                tr.close()
+                await asyncio.sleep(0)
+            await runner.cleanup()
+        loop.run_until_complete(asyncio.wait_for(go(), 600))
+    finally:
+        asyncio.set_event_loop(None)
+        loop.close()
+    model = fw.run_model(exe, ["GATE " + bits for bits, _, _ in rows]) if exe else [None] * len(rows)
+    for (bits, flag, fed), m in zip(rows, model):
+        ctx.case(("gate", bits, flag, fed), nontrivial=fed is True)
+        ctx.count("gate:" + ("fed" if fed is True else "ignored" if fed is False else str(fed)))
+        if m is not None and m.strip() != ("1" if fed is True else "0"):
+            ctx.disagreement("closing_gate", {"suite": "closing_gate", "bits(nonempty,has_req,at_eof,has_tr,has_parser,custom_pp,upgraded)": bits,
+                                              "flag": flag}, m.strip(), fed)
+        # the property: the request being handled keeps getting its body, whatever the data argument
+        arg = "non-empty data" if bits[0] == "1" else "b''"
+        if bits[1:] == "101100" and fed is not True:
+            ctx.violation({"suite": "closing_gate", "kind": "closing_starves_body", "bits": bits, "flag": flag},
+                          f"closing_starves_body: with {flag} set, data_received({arg}) does not reach the parser "
+                          "although a request is being handled and its body is not at EOF (resume_reading() pushes pending input with b'')")
+    ctx.close_suite("closing_gate", len(rows))
+
+
 # =================================================================================================
 
 def run(ctx):
@@ -1408,6 +1470,7 @@ def run(ctx):
             continue
         fn(ctx, *args)
         ctx.notes.append(f"suite {name}: {time.time() - t0:.1f}s")
+    suite_closing_gate(ctx, exe)
 
 
 def replay(ctx, case):
